@@ -29,7 +29,7 @@ func specC01() *propertySpec {
 		Rules: []ruleSpec{
 			{"C01-R1", "single-buffer: captureTestOutput, saveFailFile and the final replay stream all take result #5 of doCheck; the saved seed is result #3; the final replay logs to the TB", ruleC01R1},
 			{"C01-R2", "verified-pair: every returned (buffer, error) pair comes from one execution on that buffer, from a callee that guarantees it, or is the shrinker's (rec.data, err) state", ruleC01R2},
-			{"C01-R3", "prune-faithful: nothing derived from discarded bits steers later draws; discarded groups produce no used value (shared with C04-R4.4/R4.6)", func(r *Run) { ruleC04R44(r); ruleC04R46(r); ruleC03R2(r) }},
+			{"C01-R3", "prune-faithful: nothing derived from discarded bits steers later draws; discarded groups produce no used value; retry loops abandon the draw when their try counter runs out (shared with C04-R4.4/R4.5/R4.6/R4.8)", func(r *Run) { ruleC04R44(r); ruleC04R45(r); ruleC04R46(r); ruleC04R48(r); ruleC03R2(r) }},
 			{"C01-R4", "logged-is-returned: Draw logs and returns the single result of g.value(t)", ruleC01R4},
 			{"C01-R5", "no-phantom-failure: every bracket invocation gets a fresh (or reset) T and consults its own flag (shared with C11-R1, C02-R2)", func(r *Run) { ruleC11R1(r); ruleC02R2(r) }},
 			{"C01-R6", "flaky-only-on-mismatch: the 'flaky test' report is reachable only through traceback(err1) != traceback(err2) of doCheck's two errors", ruleC01R6},
@@ -174,9 +174,9 @@ func ruleC01R2(r *Run) {
 	p := r.P
 	rulePairAtomic(r)
 	type spec struct {
-		fn       string
-		bufIdx   int
-		errIdxs  []int
+		fn      string
+		bufIdx  int
+		errIdxs []int
 	}
 	n := 0
 	for _, s := range []spec{{"doCheck", 5, []int{7}}, {"checkFailFile", 0, []int{1, 2}}, {"shrink", 0, []int{1}}, {"(*shrinker).shrink", 0, []int{1}}} {
@@ -217,10 +217,11 @@ func ruleC01R2(r *Run) {
 		for _, b := range p.body(fn) {
 			for _, in := range b.Instrs {
 				if st, ok := in.(*ssa.Store); ok {
-					switch p.expr(st.Addr) {
-					case "^buf", "$buf":
+					// the named results of (*shrinker).shrink, identified by the position its returns load them at
+					switch p.resultCellIndex(st.Addr, r.P.Fn("(*shrinker).shrink")) {
+					case 0:
 						bufV = st.Val
-					case "^err", "$err":
+					case 1:
 						errV = st.Val
 					}
 				}
@@ -386,6 +387,7 @@ func specC05() *propertySpec {
 			{"C05-R4", "who-may-write: s.rec and s.err are stored only in accept and the constructor; shrink returns (s.rec.data, s.err)", ruleC05R4},
 			{"C05-R5", "deadline-per-step: the round loop and the outermost loop of every pass test time.Now().Before(deadline); every accept call happens inside such a loop; the deadline is handed down unchanged", ruleC05R5},
 			{"C05-R6", "candidates-from-current: every buffer passed to accept is a fresh copy (without / append(nil, …)); nothing stores through s.rec.data", ruleC05R6},
+			{"C05-R7", "prune-faithful: the buffer minimisation returns is the pruned recording of a verified run; pruning is replay-neutral, i.e. nothing derived from discarded bits steers later draws and an exhausted retry loop abandons the draw (shared with C04-R4.4/R4.5/R4.6/R4.8/R5)", func(r *Run) { ruleC04R44(r); ruleC04R45(r); ruleC04R46(r); ruleC04R48(r); ruleC04R5(r) }},
 		},
 	}
 }
@@ -559,6 +561,9 @@ func ruleC05R2(r *Run) {
 		sameLen := holds(facts, la, ">=", lb) && holds(facts, la, "<=", lb)
 		elemLess, elemGreater := false, false
 		for _, f := range facts {
+			if strings.HasPrefix(f.X, "$b[") && strings.HasPrefix(f.Y, "$a[") {
+				f = rel{f.Y, flipOp[f.Op], f.X} // written the other way round
+			}
 			if strings.HasPrefix(f.X, "$a[") && strings.HasPrefix(f.Y, "$b[") && f.X[2:] == f.Y[2:] {
 				if f.Op == "<" {
 					elemLess = true
@@ -579,7 +584,8 @@ func ruleC05R2(r *Run) {
 			// after the element loop only
 			afterLoop := false
 			for _, f := range facts {
-				if strings.Contains(f.X, "rangeindex") && f.Op == ">=" {
+				// the exit edge of the element loop: index >= len (range loop or index loop, either orientation)
+				if (f.Op == ">=" && (f.Y == la || f.Y == lb)) || (f.Op == "<=" && (f.X == la || f.X == lb) && f.Y != la && f.Y != lb) {
 					afterLoop = true
 				}
 			}
@@ -726,7 +732,7 @@ func ruleC05R3(r *Run) {
 					if isIf {
 						rl := p.relOf(guard{Cond: iff.Cond, Pol: si == 0})
 						desc = rl.String()
-						if strings.Contains(rl.X, "strings.HasSuffix(") || strings.Contains(rl.X, "more") || strings.Contains(rl.X, "(*runtime.Frames).Next") {
+						if strings.Contains(rl.X, "strings.HasSuffix(") || strings.Contains(rl.X, "(*runtime.Frames).Next") || p.isFramesMore(iff.Cond, 0) {
 							okExit = true
 						}
 					}
@@ -1065,7 +1071,6 @@ func ruleC05R6(r *Run) {
 // variadicOrSlice returns v itself (slices passed with ...).
 func (p *Program) variadicOrSlice(v ssa.Value) ssa.Value { return v }
 
-
 // rulePairAtomic: accept replaces the shrinker's (rec, err) state as a pair. Once one of them has been stored, accept
 // cannot return (it may only panic, which aborts minimisation with that run's own error) before the other one is stored
 // too: shrink returns (s.rec.data, s.err), and a torn pair is a buffer reported with the failure of another buffer.
@@ -1119,4 +1124,40 @@ func rulePairAtomic(r *Run) {
 	}
 	check("err", errStores, recStores)
 	check("rec", recStores, errStores)
+}
+
+// isFramesMore: v is the "more frames" result of (*runtime.Frames).Next, possibly carried around the loop (a phi of
+// the constant true and that result) or negated.
+func (p *Program) isFramesMore(v ssa.Value, d int) bool {
+	if d > 4 {
+		return false
+	}
+	v = p.resolve(v)
+	switch x := v.(type) {
+	case *ssa.UnOp:
+		if x.Op == token.NOT {
+			return p.isFramesMore(x.X, d+1)
+		}
+	case *ssa.Extract:
+		if c, ok := x.Tuple.(*ssa.Call); ok && x.Index == 1 && p.calleeKey(c.Common()) == "(*runtime.Frames).Next" {
+			return true
+		}
+	case *ssa.Phi:
+		found := false
+		for _, e := range x.Edges {
+			er := p.resolve(e)
+			if _, isC := constBool(er); isC {
+				continue
+			}
+			if er == ssa.Value(x) {
+				continue
+			}
+			if !p.isFramesMore(e, d+1) {
+				return false
+			}
+			found = true
+		}
+		return found
+	}
+	return false
 }
